@@ -43,6 +43,10 @@ def execSend (s : SendState) (op : String) (a : List String) : SendState × Stri
        writes := (match sp with | some b => [(1, b)] | none => []) ++ (match sq with | some b => [(2, b)] | none => []) }, "ok")
   | "listener", [x] => ({ s with listenerUp := x == "up" || x == "reset", listenerReset := x == "reset" }, "ok")
   | "end", _ => (s, "ok")
+  | "sleep", _ => (s, "ok")         -- an idle period: nothing changes
+  | "closelocal", _ =>
+    -- every dialed connection is closed on this side: its next write fails
+    ({ s with writes := s.writes.map (fun (c, b) => if c ≥ 100 && c < 100 + s.dialed then (c, []) else (c, b)) }, "ok")
   | "msg", [n] =>
     let m := parseNat n
     -- dial oracle for this send: the listener's state decides every dial of the send
@@ -69,6 +73,7 @@ send goes to the path that worked last time. -/
 def specSend (s : SendState) (op : String) (impl : List String) : SendState × List String :=
   match op with
   | "new" => ({ s with working := none }, [])
+  | "closelocal" => ({ s with working := none }, [])      -- the path that worked is gone: nothing to go straight to
   | "msg" =>
     match impl with
     | res :: rest =>
